@@ -626,4 +626,469 @@ Proof.
   destruct go3; [|exact H2]. unfold fr_requests. destruct (run_requests _ _ _ _ _ _ _). exact H2.
 Qed.
 
+
+(* ================= C08: the NAK queue and the NAK PDUs ================= *)
+Definition wf_req (r : N * N) : Prop := (fst r = 0 /\ snd r = 0) \/ fst r < snd r.
+Definition marker_free (l : list (N * N)) : Prop := Forall (fun r => fst r < snd r) l.
+
+(* the queue holds only non-empty ranges and the 0-0 marker, the marker only while the
+   metadata is missing; the segment list is well-formed *)
+Definition N8 (s : rstate) : Prop :=
+  Forall wf_req (r_naks s) /\ (is_some (r_meta s) = true -> marker_free (r_naks s)) /\ Inv (r_segs s).
+
+Lemma N8_ext (s s' : rstate) : N8 s -> r_naks s' = r_naks s -> r_meta s' = r_meta s -> r_segs s' = r_segs s -> N8 s'.
+Proof. unfold N8. intros (A & B & C) E1 E2 E3. rewrite E1, E2, E3. auto. Qed.
+
+Lemma gaps_marker_free v a b : Inv v -> marker_free (gaps v a b).
+Proof.
+  intros Hi. destruct (gaps_spec v a b Hi) as (G & _ & _). unfold marker_free.
+  induction (gaps v a b) as [|[x y] t IH]; [constructor|].
+  apply Inv_cons in G as (Hxy & _ & Ht). constructor; [exact Hxy|auto].
+Qed.
+Lemma marker_free_wf l : marker_free l -> Forall wf_req l.
+Proof. unfold marker_free. intros H. eapply Forall_impl; [|exact H]. intros r Hr. right. exact Hr. Qed.
+
+Lemma N8_get_all_naks (s : rstate) : Inv (r_segs s) ->
+  Forall wf_req (get_all_naks s) /\ (is_some (r_meta s) = true -> marker_free (get_all_naks s)).
+Proof.
+  intros Hi. unfold get_all_naks.
+  pose proof (gaps_marker_free (r_segs s) 0 (match r_fsize s with Some f => f | None => end_or_0 (r_segs s) end) Hi) as Hg.
+  destruct (is_some (r_meta s)); cbn [app].
+  - split; [apply marker_free_wf; exact Hg|intros _; exact Hg].
+  - split; [|intros E; discriminate]. constructor; [left; auto|apply marker_free_wf; exact Hg].
+Qed.
+
+(* setting the queue to the full list of what is missing *)
+Lemma N8_set_all (s0 s : rstate) : N8 s0 -> r_meta s = r_meta s0 -> r_segs s = r_segs s0 ->
+  N8 (set_r_naks (get_all_naks s) s).
+Proof.
+  intros (_ & _ & C) E2 E3. unfold N8. cbn [r_naks r_meta r_segs set_r_naks].
+  destruct (N8_get_all_naks s) as (G1 & G2); [rewrite E3; exact C|].
+  splits; auto. rewrite E3. exact C.
+Qed.
+
+Lemma naks_cancel_ now (s : rstate) : r_naks (cancel_ now s) = r_naks s /\ r_meta (cancel_ now s) = r_meta s /\ r_segs (cancel_ now s) = r_segs s.
+Proof. unfold cancel_. destruct (cfg_mode _); [|destruct (closure _)]; cbn; auto. Qed.
+Lemma naks_handle_fault now c (s : rstate) :
+  r_naks (fst (handle_fault now c s)) = r_naks s /\ r_meta (fst (handle_fault now c s)) = r_meta s /\
+  r_segs (fst (handle_fault now c s)) = r_segs s.
+Proof.
+  unfold handle_fault. destruct (handler _ c); cbn [fst]; try (cbn; auto; fail).
+  destruct (naks_cancel_ now (emit_ind (IFault c (r_recvd (set_r_cond c s))) (set_r_cond c s))) as (A & B & C).
+  rewrite A, B, C. cbn. auto.
+Qed.
+Lemma N8_handle_fault now c s : N8 s -> N8 (fst (handle_fault now c s)).
+Proof. intros H. destruct (naks_handle_fault now c s) as (A & B & C). eapply N8_ext; eassumption. Qed.
+Lemma N8_cancel_ now s : N8 s -> N8 (cancel_ now s).
+Proof. intros H. destruct (naks_cancel_ now s) as (A & B & C). eapply N8_ext; eassumption. Qed.
+
+Ltac n8_calls _ :=
+  lazymatch goal with
+  | |- N8 (cancel_ _ _) => apply N8_cancel_
+  | |- N8 (fst (handle_fault _ _ _)) => apply N8_handle_fault
+  | |- N8 (abandon _ _) => unfold abandon
+  | |- N8 (suspend _ _) => unfold suspend
+  end.
+Ltac n8 := solve_st N8 N8_ext n8_calls.
+
+Lemma in_skipn {A} (x : A) n l : In x (skipn n l) -> In x l.
+Proof. revert l. induction n as [|n IH]; intros l H; [exact H|]. destruct l; [exact H|]. right. apply IH. exact H. Qed.
+
+(* a suffix / prefix of a good queue is good *)
+Lemma N8_sub (s s' : rstate) : N8 s -> (forall r, In r (r_naks s') -> In r (r_naks s)) ->
+  r_meta s' = r_meta s -> r_segs s' = r_segs s -> N8 s'.
+Proof.
+  unfold N8, marker_free. intros (A & B & C) Hsub E2 E3. rewrite E2, E3. splits; auto.
+  - rewrite Forall_forall in *. auto.
+  - intros Hm. specialize (B Hm). rewrite Forall_forall in *. auto.
+Qed.
+
+Lemma N8_send_naks now s : N8 s -> N8 (send_naks resp_len req_len now s).
+Proof.
+  intros H. unfold send_naks, c_limit_reached.
+  repeat (first [destr_pair_keep | destr_inner]; cbn [fst snd]); try n8.
+  all: match goal with |- N8 (emit_pdu _ _ _ (set_r_naks (skipn ?n ?l) ?x)) =>
+         assert (Hx : N8 x) by n8;
+         eapply (N8_sub x); [exact Hx | | reflexivity | reflexivity];
+         cbn; intros r Hr; apply (in_skipn _ _ _ Hr) end.
+Qed.
+
+
+Lemma N8_app (s s' : rstate) l : N8 s -> r_naks s' = r_naks s ++ l -> marker_free l ->
+  r_meta s' = r_meta s -> r_segs s' = r_segs s -> N8 s'.
+Proof.
+  unfold N8, marker_free. intros (A & B & C) E1 Hl E2 E3. rewrite E1, E2, E3. splits; auto.
+  - apply Forall_app. split; [exact A|apply marker_free_wf; exact Hl].
+  - intros Hm. apply Forall_app. split; [apply B; exact Hm|exact Hl].
+Qed.
+
+Lemma N8_store off d s : N8 s -> N8 (store_file_data off d s).
+Proof.
+  intros (A & B & C). unfold store_file_data. destruct (is_nil d) eqn:En; [unfold N8; splits; assumption|].
+  cbn [r_segs set_r_staged].
+  destruct (ins off (off + N.of_nat (length d)) (r_segs s)) as [v n] eqn:E.
+  assert (Hlt : off < off + N.of_nat (length d)) by (destruct d; [discriminate|]; cbn [length]; lia).
+  destruct (ins_ok _ _ _ Hlt C _ _ E) as (H1 & _).
+  unfold N8. cbn. splits; auto.
+Qed.
+
+Lemma N8_resume now s : N8 s -> N8 (resume now s).
+Proof.
+  intros H. unfold resume. repeat (destr_inner; cbn [fst snd]); try n8.
+  all: match goal with |- N8 (emit_ind _ (set_r_state _ (set_r_naks (get_all_naks ?x) ?x))) =>
+         eapply (N8_ext (set_r_naks (get_all_naks x) x)); [apply (N8_set_all s); [exact H|reflexivity|reflexivity] | reflexivity ..] end.
+Qed.
+
+Lemma N8_answer_prompt now s : N8 s -> N8 (answer_prompt resp_len req_len now s).
+Proof.
+  intros H. unfold answer_prompt. destruct (r_prompt s) as [[|]|]; try n8.
+  apply N8_send_naks. apply (N8_set_all s); [exact H|reflexivity|reflexivity].
+Qed.
+
+Lemma N8_send_pdu now s : N8 s -> N8 (send_pdu resp_len req_len now s).
+Proof.
+  intros H. unfold Recv.send_pdu.
+  pose proof (N8_answer_prompt now s H). pose proof (N8_send_naks now s H).
+  assert (N8 (send_ack_eof resp_len req_len s)) by (unfold send_ack_eof; destruct (r_ack s); n8).
+  assert (N8 (send_finished resp_len req_len now s)).
+  { unfold send_finished, set_fin_flag. repeat (destr_inner; cbn [fst snd]); n8. }
+  repeat destr_inner; auto.
+Qed.
+
+Lemma N8_ht_delayed now s : N8 s -> N8 (ht_delayed now s).
+Proof.
+  intros H. unfold ht_delayed. destruct (expire_delayed now (r_delayed s)) as [ex rest].
+  destruct (is_nil ex); [n8|].
+  destruct H as (A & B & C). unfold N8. cbn [r_naks r_meta r_segs set_r_naks set_r_delayed].
+  assert (Hg : marker_free (flat_map (fun w => gaps (r_segs s) (fst w)
+                 (match r_fsize s with Some f => N.min (snd w) f | None => snd w end)) ex)).
+  { unfold marker_free. apply Forall_forall. intros x Hx. apply in_flat_map in Hx as (w & _ & Hw).
+    pose proof (gaps_marker_free (r_segs s) (fst w) (match r_fsize s with Some f => N.min (snd w) f | None => snd w end) C) as Hm.
+    unfold marker_free in Hm. rewrite Forall_forall in Hm. auto. }
+  splits; auto.
+  - apply Forall_app. split; [|apply marker_free_wf; exact Hg].
+    apply Forall_app. split; [exact A|]. destruct (is_some (r_meta s)); constructor; [left; auto|constructor].
+  - intros Hm. unfold marker_free. apply Forall_app. split; [|exact Hg]. apply Forall_app. split; [apply B; exact Hm|].
+    rewrite Hm. constructor.
+Qed.
+
+Lemma N8_ht_inactivity now s : N8 s -> N8 (fst (ht_inactivity now s)).
+Proof. intros H. unfold ht_inactivity, c_limit_reached. repeat (first [destr_pair_keep | destr_inner]; cbn [fst snd]); n8. Qed.
+
+Lemma N8_ht_phase now s : N8 s -> N8 (ht_phase now s).
+Proof.
+  intros H. unfold ht_phase, c_limit_reached, c_timeout_occurred, set_fin_flag.
+  repeat (first [destr_pair_keep | destr_inner]; cbn [fst snd]); try n8.
+  all: match goal with |- N8 (set_r_naks (get_all_naks ?x) ?x) =>
+         apply (N8_set_all s); [exact H|reflexivity|reflexivity] end.
+Qed.
+
+Lemma N8_handle_timeout now s : N8 s -> N8 (handle_timeout now s).
+Proof.
+  intros H. unfold handle_timeout.
+  pose proof (N8_ht_inactivity now _ (N8_ht_delayed now s H)) as H1.
+  destruct (ht_inactivity now (ht_delayed now s)) as [s1 go]. cbn [fst] in H1.
+  destruct go; [apply N8_ht_phase|]; exact H1.
+Qed.
+
+
+Lemma N8_check_file_size now size s : N8 s -> N8 (check_file_size now size s).
+Proof. intros H. unfold check_file_size. destr_inner; [apply N8_handle_fault|]; exact H. Qed.
+
+Lemma N8_finalize now s : N8 s -> N8 (finalize_receive now s).
+Proof.
+  intros H. unfold Recv.finalize_receive.
+  set (s0 := set_r_dc _ s). assert (H0 : N8 s0) by (unfold s0; n8). clearbody s0. clear H.
+  assert (H1 : N8 (fst (if is_file_transfer s0
+                        then let '(s1, go) := fr_verify FS cksum now s0 in
+                             if go then (fr_store FS fs_write_file s1, true) else (s1, false)
+                        else (set_r_fstat FUnreported s0, true)))).
+  { destruct (is_file_transfer s0); cbn [fst]; [|n8].
+    assert (Hv : N8 (fst (fr_verify FS cksum now s0))).
+    { unfold fr_verify. destr_inner; cbn [fst]; [n8|]. apply N8_handle_fault. n8. }
+    destruct (fr_verify FS cksum now s0) as [s1 go]. cbn [fst] in Hv.
+    destruct go; cbn [fst]; [|exact Hv]. unfold fr_store. destr_inner; n8. }
+  destruct (if is_file_transfer s0 then _ else _) as [s2 go2]. cbn [fst] in H1.
+  destruct go2; [|exact H1].
+  assert (H2 : N8 (fst (fr_rejection now s2))).
+  { unfold fr_rejection. destruct (r_fstat s2); cbn [fst]; try exact H1. apply N8_handle_fault. exact H1. }
+  destruct (fr_rejection now s2) as [s3 go3]. cbn [fst] in H2.
+  destruct go3; [|exact H2]. unfold fr_requests. destruct (run_requests _ _ _ _ _ _ _). n8.
+Qed.
+
+Lemma N8_check_finished now s : N8 s -> N8 (check_finished now s).
+Proof.
+  intros H. unfold Recv.check_finished. destr_inner; [|exact H].
+  eapply N8_ext; [apply (N8_finalize now s H)|reflexivity ..].
+Qed.
+
+Lemma filter_marker l : Forall wf_req l ->
+  marker_free (filter (fun x : N * N => negb ((fst x =? 0) && (snd x =? 0))) l).
+Proof.
+  intros H. unfold marker_free. apply Forall_forall. intros x Hx. apply filter_In in Hx as (Hin & Hf).
+  rewrite Forall_forall in H. destruct (H x Hin) as [[A B]|Hlt]; [|exact Hlt].
+  rewrite A, B in Hf. discriminate.
+Qed.
+
+Ltac n8b_calls _ :=
+  lazymatch goal with
+  | |- N8 (check_file_size _ _ _) => apply N8_check_file_size
+  | |- N8 (check_finished _ _) => apply N8_check_finished
+  | |- N8 (store_file_data _ _ _) => apply N8_store
+  | _ => n8_calls tt
+  end.
+Ltac n8b := solve_st N8 N8_ext n8b_calls.
+
+(* N8 for the acknowledged-mode PDU handlers *)
+Lemma N8_process_pdu now p s : cfg_mode (r_cfg s) = Acked -> N8 s -> N8 (fst (process_pdu now p s)).
+Proof.
+  intros Hm H. unfold Recv.process_pdu.
+  set (s0 := if suspended s then s else upd_inact (c_reset now) s).
+  assert (H0 : N8 s0) by (unfold s0; destruct (suspended s); n8).
+  assert (Hm0 : cfg_mode (r_cfg s0) = Acked) by (unfold s0; destruct (suspended s); exact Hm).
+  clearbody s0. clear H Hm. rewrite Hm0.
+  destruct p; cbn [fst]; try exact H0.
+  - (* file data *)
+    unfold pdu_filedata_acked. destr_inner; [exact H0|]. apply N8_check_finished.
+    pose proof (N8_store offset data s0 H0) as H1.
+    set (s1 := emit_ind (IFileSegmentRecv offset (N.of_nat (length data))) (store_file_data offset data s0)).
+    assert (H2 : N8 s1) by (unfold s1; n8). clearbody s1. clear H1.
+    destruct (r_nakproc s1); [|exact H2].
+    destruct (eof_received s1); [exact H2|]. unfold c_timeout_occurred. cbn [fst snd].
+    destruct (c_occurred _).
+    + match goal with |- N8 (upd_nak _ (set_r_naks (get_all_naks ?x) ?x)) =>
+        eapply (N8_ext (set_r_naks (get_all_naks x) x)); [apply (N8_set_all s1); [exact H2|reflexivity|reflexivity] | reflexivity ..] end.
+    + destruct (N.ltb_spec (match seg_end (r_segs s0) with Some e => e | None => 0 end) offset) as [Hlt|Hge]; [|n8].
+      destruct (delay =? 0); [|n8].
+      eapply (N8_app s1); [exact H2 | reflexivity | | reflexivity | reflexivity].
+      unfold marker_free. constructor; [exact Hlt|constructor].
+  - (* EOF *)
+    unfold pdu_eof_acked. destr_inner; [n8|]. destr_inner; [|apply N8_cancel_; n8].
+    match goal with |- context [check_finished now ?x] =>
+      assert (H1 : N8 (check_finished now x)) by n8b;
+      remember (check_finished now x) as s1 eqn:E1; clear E1 end.
+    destruct (has_naks s1); [|exact H1]. destruct (_ =? 0); [|n8].
+    apply (N8_set_all s1); [exact H1|reflexivity|reflexivity].
+  - unfold pdu_ack_acked. repeat (destr_inner; cbn [fst snd]); try exact H0; n8.
+  - (* Metadata: the queued 0-0 request is dropped *)
+    unfold pdu_metadata_acked, set_metadata. destr_inner; [exact H0|]. apply N8_check_finished.
+    destruct H0 as (A & B & C). unfold N8. cbn [r_naks r_meta r_segs set_r_naks set_r_meta emit_ind set_r_out].
+    splits; auto.
+    + apply marker_free_wf. apply filter_marker. exact A.
+    + intros _. apply filter_marker. exact A.
+Qed.
+
+Theorem N8_rstep now o s : cfg_mode (r_cfg s) = Acked -> N8 s -> N8 (fst (rstep now o s)).
+Proof.
+  intros Hm H. unfold Recv.rstep.
+  assert (H0 : N8 (set_r_out [] s)) by n8.
+  destruct o; cbn [fst].
+  - apply N8_process_pdu; [exact Hm|exact H0].
+  - destruct (has_pdu_to_send _); [apply N8_send_pdu|]; exact H0.
+  - destruct (until_timeout now _) as [[|?]|]; [apply N8_handle_timeout| |]; exact H0.
+  - unfold cancel. apply N8_cancel_. n8.
+  - unfold suspend. n8.
+  - apply N8_resume; exact H0.
+  - unfold send_report. n8.
+  - n8.
+Qed.
+
+(* ---- the NAK PDU that send_naks builds ---- *)
+Lemma min_list_le l d x : In x l -> min_list l d <= x.
+Proof.
+  destruct l as [|y t]; [intros []|]. cbn [min_list].
+  assert (G : forall t a, fold_left N.min t a <= a /\ (forall z, In z t -> fold_left N.min t a <= z)).
+  { induction t0 as [|z t0 IH]; intros a; cbn [fold_left]; [split; [lia|intros ? []]|].
+    destruct (IH (N.min a z)) as (I1 & I2). split; [lia|]. intros w [Hw|Hw]; [subst; lia|auto]. }
+  destruct (G t y) as (G1 & G2). intros [Hx|Hx]; [subst; exact G1|auto].
+Qed.
+Lemma max_list_ge l d x : In x l -> x <= max_list l d.
+Proof.
+  destruct l as [|y t]; [intros []|]. cbn [max_list].
+  assert (G : forall t a, a <= fold_left N.max t a /\ (forall z, In z t -> z <= fold_left N.max t a)).
+  { induction t0 as [|z t0 IH]; intros a; cbn [fold_left]; [split; [lia|intros ? []]|].
+    destruct (IH (N.max a z)) as (I1 & I2). split; [lia|]. intros w [Hw|Hw]; [subst; lia|auto]. }
+  destruct (G t y) as (G1 & G2). intros [Hx|Hx]; [subst; exact G1|auto].
+Qed.
+
+(* every request of a NAK built from a queue prefix lies inside the announced scope, and the
+   PDU's data field fits the segment size (+1 directive code octet) *)
+Theorem nak_scope_contains reqs d0 d1 r : In r reqs ->
+  min_list (map fst reqs) d0 <= fst r /\ snd r <= max_list (map snd reqs) d1.
+Proof.
+  intros H. split; [apply min_list_le|apply max_list_ge]; apply in_map; exact H.
+Qed.
+
+Theorem nak_fits (cfg : config) n : 2 * fss cfg <= cfg_seg cfg -> n <= max_nak_num cfg ->
+  1 + 2 * fss cfg + n * (2 * fss cfg) <= cfg_seg cfg + 1.
+Proof.
+  unfold max_nak_num. intros Hs Hn.
+  assert (Hf : 0 < 2 * fss cfg) by (unfold fss; destruct (cfg_large cfg); lia).
+  destruct (TimerP.div_bounds (cfg_seg cfg - 2 * fss cfg) (2 * fss cfg) Hf) as (Hq & _).
+  assert (n * (2 * fss cfg) <= (cfg_seg cfg - 2 * fss cfg) / (2 * fss cfg) * (2 * fss cfg)) by (apply N.mul_le_mono_r; exact Hn).
+  generalize dependent (n * (2 * fss cfg)). generalize dependent ((cfg_seg cfg - 2 * fss cfg) / (2 * fss cfg) * (2 * fss cfg)).
+  intros. lia.
+Qed.
+
+(* ---- exactness: what get_all_naks asks for (sent after EOF with zero delay, at every
+   NAK-timer expiry, on resume and in answer to a prompt) ---- *)
+Theorem get_all_naks_exact (s : rstate) fsz : Inv (r_segs s) -> r_fsize s = Some fsz ->
+  get_all_naks s = (if is_some (r_meta s) then [] else [(0, 0)]) ++ gaps (r_segs s) 0 fsz /\
+  (forall x, covered (gaps (r_segs s) 0 fsz) x <-> (x < fsz /\ ~ covered (r_segs s) x)) /\
+  (forall a b, In (a, b) (gaps (r_segs s) 0 fsz) -> a < b /\ b <= fsz).
+Proof.
+  intros Hi Hf. unfold get_all_naks. rewrite Hf. split; [reflexivity|].
+  destruct (gaps_spec (r_segs s) 0 fsz Hi) as (G1 & G2 & G3). split.
+  - intros x. rewrite G3. split; intros (A & B); split; auto; lia.
+  - intros a b Hin. destruct (G2 a b Hin) as (_ & Hb). split; [|exact Hb].
+    pose proof (gaps_marker_free (r_segs s) 0 fsz Hi) as Hm. unfold marker_free in Hm.
+    rewrite Forall_forall in Hm. apply (Hm (a, b) Hin).
+Qed.
+
+(* ---- deferred procedure: nothing is queued before the EOF unless a prompt was received ---- *)
+Definition DF (s : rstate) : Prop :=
+  is_immediate (r_nakproc s) = false /\ r_fsize s = None /\ r_prompt s = None /\ r_naks s = [] /\ r_delayed s = [] /\
+  nak_idle (t_nak (r_timer s)).
+
+
+Lemma DF_ext (s s' : rstate) : DF s -> r_nakproc s' = r_nakproc s -> r_fsize s' = r_fsize s ->
+  r_prompt s' = r_prompt s -> r_naks s' = r_naks s -> r_delayed s' = r_delayed s ->
+  t_nak (r_timer s') = t_nak (r_timer s) -> DF s'.
+Proof. unfold DF. intros (A & B & C & D & E & F) E1 E2 E3 E4 E5 E6. rewrite E1, E2, E3, E4, E5, E6. splits; auto. Qed.
+Lemma DF_pause now (s s' : rstate) : DF s -> r_nakproc s' = r_nakproc s -> r_fsize s' = r_fsize s ->
+  r_prompt s' = r_prompt s -> r_naks s' = r_naks s -> r_delayed s' = r_delayed s ->
+  t_nak (r_timer s') = c_pause now (t_nak (r_timer s)) -> DF s'.
+Proof.
+  unfold DF. intros (A & B & C & D & E & F) E1 E2 E3 E4 E5 E6. rewrite E1, E2, E3, E4, E5, E6. splits; auto.
+  apply nak_idle_pause. exact F.
+Qed.
+Lemma DF_shutdown now s : DF s -> DF (shutdown now s).
+Proof. intros H. eapply (DF_pause now s); [exact H | reflexivity ..]. Qed.
+Lemma DF_abandon now s : DF s -> DF (abandon now s).
+Proof. intros H. unfold abandon. apply DF_shutdown. eapply (DF_ext s); [exact H | reflexivity ..]. Qed.
+Lemma DF_suspend now s : DF s -> DF (suspend now s).
+Proof. intros H. unfold suspend. eapply (DF_pause now s); [exact H | reflexivity ..]. Qed.
+Lemma DF_cancel_ now s : DF s -> DF (cancel_ now s).
+Proof.
+  intros (A & B & C & D & E & F). destruct (naks_cancel_ now s) as (N1 & _ & _).
+  unfold DF. rewrite N1. unfold cancel_.
+  destruct (cfg_mode _); [|destruct (closure _)]; cbn; splits; auto; repeat apply nak_idle_pause; exact F.
+Qed.
+Lemma DF_handle_fault now c s : DF s -> DF (fst (handle_fault now c s)).
+Proof.
+  intros H. unfold handle_fault.
+  assert (H1 : DF (emit_ind (IFault c (r_recvd (set_r_cond c s))) (set_r_cond c s))) by (eapply (DF_ext s); [exact H | reflexivity ..]).
+  destruct (handler _ c); cbn [fst]; [apply DF_cancel_ | apply DF_suspend | | apply DF_abandon]; exact H1.
+Qed.
+Ltac df_head :=
+  lazymatch goal with
+  | |- DF (abandon _ _) => apply DF_abandon
+  | |- DF (fst (handle_fault _ _ _)) => apply DF_handle_fault
+  | |- DF (shutdown _ _) => apply DF_shutdown
+  | |- DF (cancel_ _ _) => apply DF_cancel_
+  | |- DF (suspend _ _) => apply DF_suspend
+  | |- _ => idtac
+  end.
+Ltac df_leaf s0 H0 := df_head; try (eapply (DF_ext s0); [exact H0 | reflexivity ..]).
+
+Lemma DF_finalize now s : DF s -> DF (finalize_receive now s).
+Proof.
+  intros H. unfold Recv.finalize_receive.
+  set (s0 := set_r_dc _ s). assert (H0 : DF s0) by (unfold s0; eapply (DF_ext s); [exact H | reflexivity ..]). clearbody s0. clear H.
+  assert (H1 : DF (fst (if is_file_transfer s0
+                        then let '(s1, go) := fr_verify FS cksum now s0 in
+                             if go then (fr_store FS fs_write_file s1, true) else (s1, false)
+                        else (set_r_fstat FUnreported s0, true)))).
+  { destruct (is_file_transfer s0); cbn [fst]; [|df_leaf s0 H0].
+    assert (Hv : DF (fst (fr_verify FS cksum now s0))).
+    { unfold fr_verify. destr_inner; cbn [fst]; df_leaf s0 H0. }
+    destruct (fr_verify FS cksum now s0) as [s1 go]. cbn [fst] in Hv.
+    destruct go; cbn [fst]; [|exact Hv]. unfold fr_store. destr_inner; df_leaf s1 Hv. }
+  destruct (if is_file_transfer s0 then _ else _) as [s2 go2]. cbn [fst] in H1.
+  destruct go2; [|exact H1].
+  assert (H2 : DF (fst (fr_rejection now s2))).
+  { unfold fr_rejection. destruct (r_fstat s2); cbn [fst]; try exact H1. apply DF_handle_fault. exact H1. }
+  destruct (fr_rejection now s2) as [s3 go3]. cbn [fst] in H2.
+  destruct go3; [|exact H2]. unfold fr_requests. destruct (run_requests _ _ _ _ _ _ _). df_leaf s3 H2.
+Qed.
+
+(* before the EOF check_finished does nothing *)
+Lemma check_finished_no_eof now (s : rstate) : r_fsize s = None -> check_finished now s = s.
+Proof. intros H. unfold Recv.check_finished, eof_received. rewrite H. cbn. rewrite !andb_false_r. reflexivity. Qed.
+
+Definition no_nak (o : out) : Prop :=
+  match o with OPdu p => match o_payload p with PNakP _ => False | _ => True end | OInd _ => True end.
+
+(* C08, deferred procedure: as long as neither the EOF nor a prompt has been received, every
+   operation keeps the queue empty and emits no NAK PDU *)
+Theorem DF_rstep now o s : DF s ->
+  (forall q, o <> RPdu (PPrompt q)) -> (forall e, o <> RPdu (PEof e)) ->
+  DF (fst (rstep now o s)) /\ Forall no_nak (r_out (fst (rstep now o s))).
+Proof.
+  intros H Hq He. unfold Recv.rstep.
+  assert (H0 : DF (set_r_out [] s)) by (eapply (DF_ext s); [exact H | reflexivity ..]).
+  destruct o; cbn [fst].
+  - (* a received PDU: no PDU is emitted at all *)
+    split; [|eapply Forall_impl; [|apply JQ_process_pdu; unfold JQ; cbn; constructor]; intros [x|x]; cbn; tauto].
+    unfold Recv.process_pdu.
+    set (s0 := if suspended (set_r_out [] s) then set_r_out [] s else upd_inact (c_reset now) (set_r_out [] s)).
+    assert (H1 : DF s0) by (unfold s0; destruct (suspended _); [|eapply (DF_ext (set_r_out [] s)); [|reflexivity ..]]; exact H0).
+    clearbody s0.
+    destruct H1 as (A & B & C & D & E & F). assert (H1 : DF s0) by (unfold DF; splits; auto).
+    destruct (cfg_mode (r_cfg s0)); destruct p; cbn [fst]; try exact H1;
+      try (exfalso; eapply He; reflexivity); try (exfalso; eapply Hq; reflexivity).
+    + (* file data, acknowledged, deferred: nothing is queued *)
+      unfold pdu_filedata_acked. destr_inner; [exact H1|].
+      assert (Hst : DF (store_file_data offset data s0) /\ r_nakproc (store_file_data offset data s0) = r_nakproc s0 /\
+                    r_fsize (store_file_data offset data s0) = None).
+      { unfold store_file_data. destruct (is_nil data); [splits; auto|].
+        destruct (ins _ _ _). splits; [eapply (DF_ext s0); [exact H1 | reflexivity ..] | reflexivity | exact B]. }
+      destruct Hst as (S1 & S2 & S3). remember (store_file_data offset data s0) as s1 eqn:E1. clear E1.
+      rewrite check_finished_no_eof.
+      * cbn [r_nakproc emit_ind set_r_out]. rewrite S2.
+        destruct (r_nakproc s0); [cbn in A; discriminate|]. eapply (DF_ext s1); [exact S1 | reflexivity ..].
+      * cbn [r_nakproc emit_ind set_r_out]. rewrite S2.
+        destruct (r_nakproc s0); [cbn in A; discriminate|]. exact S3.
+    + unfold pdu_ack_acked. repeat (destr_inner; cbn [fst snd]); try exact H1.
+      all: apply DF_shutdown; eapply (DF_ext s0); [exact H1 | reflexivity ..].
+    + unfold pdu_metadata_acked, set_metadata. destr_inner; [exact H1|].
+      rewrite check_finished_no_eof by exact B.
+      unfold DF in *. cbn. rewrite D. cbn. splits; auto.
+    + unfold pdu_filedata_unacked, store_file_data. repeat (destr_inner; cbn [fst snd]); df_leaf s0 H1.
+    + unfold pdu_ack_unacked. repeat (destr_inner; cbn [fst snd]); df_leaf s0 H1.
+    + unfold pdu_metadata_unacked, set_metadata. destr_inner; df_leaf s0 H1.
+  - (* send arm: with nothing queued only an ACK or a Finished PDU can go out *)
+    destruct H0 as (A & B & C & D & E & F). assert (H0 : DF (set_r_out [] s)) by (unfold DF; splits; auto).
+    destruct (has_pdu_to_send _); [|split; [exact H0|cbn; constructor]].
+    unfold Recv.send_pdu. rewrite C, D. cbn [is_some is_nil negb].
+    unfold send_ack_eof, send_finished, set_fin_flag, fin_flag, emit_pdu.
+    repeat (destr_inner; cbn [fst snd]); (split; [df_leaf (set_r_out [] s) H0 | cbn; repeat (constructor; try exact I)]).
+  - (* timers *)
+    destruct (until_timeout now _) as [[|?]|]; try (split; [exact H0|cbn; constructor]).
+    split; [|eapply Forall_impl; [|apply JN_handle_timeout; unfold JN; cbn; constructor]; intros [x|x]; cbn; tauto].
+    unfold handle_timeout.
+    assert (H1 : DF (ht_delayed now (set_r_out [] s))).
+    { unfold ht_delayed. destruct H0 as (A & B & C & D & E & F). rewrite E. cbn. unfold DF. cbn. splits; auto. }
+    assert (H2 : DF (fst (ht_inactivity now (ht_delayed now (set_r_out [] s))))).
+    { remember (ht_delayed now (set_r_out [] s)) as s1 eqn:E1; clear E1. unfold ht_inactivity, c_limit_reached.
+      repeat (destr_inner; cbn [fst snd]); df_leaf s1 H1. }
+    destruct (ht_inactivity now (ht_delayed now (set_r_out [] s))) as [s2 go]. cbn [fst] in H2.
+    destruct go; [|exact H2].
+    unfold ht_phase. destruct H2 as (A & B & C & D & E & F). assert (H2 : DF s2) by (unfold DF; splits; auto).
+    unfold eof_received. rewrite A, B. cbn [orb is_some].
+    destruct (r_phase s2); [exact H2| |]; unfold c_limit_reached, set_fin_flag;
+      repeat (destr_inner; cbn [fst snd]); df_leaf s2 H2.
+  - split; [unfold cancel; apply DF_cancel_; eapply (DF_ext (set_r_out [] s)); [exact H0 | reflexivity ..]|].
+    eapply Forall_impl; [|apply (JN_cancel_ now (set_r_cond CancelReceived (set_r_out [] s))); unfold JN; cbn; constructor].
+    intros [x|x]; cbn; tauto.
+  - split; [apply DF_suspend; exact H0|cbn; repeat constructor].
+  - (* resume: deferred and no EOF yet: the NAK list is not rebuilt *)
+    destruct H0 as (A & B & C & D & E & F). assert (H0 : DF (set_r_out [] s)) by (unfold DF; splits; auto).
+    unfold resume, eof_received. cbn [r_nakproc r_fsize upd_inact set_r_timer r_cfg r_phase]. rewrite A, B. cbn [orb is_some andb].
+    rewrite andb_false_r.
+    destruct (r_phase (set_r_out [] s)); (split; [eapply (DF_ext (set_r_out [] s)); [exact H0 | reflexivity ..] | cbn; repeat constructor]).
+  - split; [unfold send_report; eapply (DF_ext (set_r_out [] s)); [exact H0 | reflexivity ..]|cbn; repeat constructor].
+  - split; [apply DF_shutdown; exact H0|cbn; constructor].
+Qed.
+
 End RecvInv.
